@@ -383,6 +383,10 @@ func parentLocation(c *flows.Contact, ftype string) *string {
 
 // recordParse runs the real parser for (contact, field, raw) and remembers the result for the tables
 func (t *tables) recordParse(env envs.Environment, c *flows.Contact, field int, raw string) {
+	// the field modifier parses what is left of the text after cutting it to MaxFieldChars
+	if rs := []rune(raw); len(rs) > t.u.spec.MaxChars {
+		raw = string(rs[:max(t.u.spec.MaxChars, 0)])
+	}
 	if raw == "" {
 		return
 	}
@@ -402,7 +406,8 @@ func (t *tables) coq() (string, []int) {
 		s := t.in.names[id-1]
 		u := urns.URN(s)
 		norm[id] = t.in.id(string(u.Normalize()))
-		if u.Validate() == nil {
+		// valid for the URNs modifier: scheme/path/display validate and the query parses (what the readers require)
+		if _, qerr := u.Query(); u.Validate() == nil && qerr == nil {
 			valid = append(valid, id)
 		}
 		ident[id] = t.in.id("ident:" + string(u.Identity()))
